@@ -77,6 +77,7 @@ func zzMatches(l *SimpleLedger, m zzModel) bool {
 // RollbackState(t) for every t below the head: state equals the state recorded at t (also
 // after reopen), the root chain continues from root(t), re-executing block t+1 reproduces its root.
 func ZZH_C12_rollback() {
+	zz.HashForkOff()
 	store := zz.NewStore()
 	cache, _ := NewAccountCache()
 	l := zzNewLedger(store, cache)
